@@ -300,9 +300,10 @@ Lemma failures_parts : forall pol exc tbl, table_ok pol exc tbl = true ->
 Proof.
   intros pol exc tbl H. unfold table_ok, failures in H.
   destruct (field_failures pol exc tbl ++ site_failures pol exc tbl ++ pair_failures pol exc tbl ++
-            entry_failures tbl ++ opt_failures tbl) eqn:E; [|discriminate].
+            entry_failures tbl ++ opt_failures tbl ++ unlock_failures tbl ++ cond_entry_failures tbl) eqn:E; [|discriminate].
   apply app_eq_nil in E. destruct E as [E1 E]. apply app_eq_nil in E. destruct E as [E2 E].
-  apply app_eq_nil in E. destruct E as [E3 E]. apply app_eq_nil in E. destruct E as [E4 E5]. auto.
+  apply app_eq_nil in E. destruct E as [E3 E]. apply app_eq_nil in E. destruct E as [E4 E5].
+  apply app_eq_nil in E5. destruct E5 as [E5 _]. auto.
 Qed.
 
 Lemma site_accepted : forall pol exc tbl s,
